@@ -44,7 +44,8 @@ def dump (st : State) (o : Outcome) : String :=
   let lc := ",".intercalate ((lcDump st).map fun p => s!"{p.1}:{p.2}")
   let inlc := showList (sortNat ((st.blocks.filter (·.inLC)).map (·.b.hash)))
   let blocks := showList (sortNat (st.blocks.map (·.b.hash)))
-  s!"res={o.str} tip={tip} lc=[{lc}] utxo=[{showList (sortNat st.utxo)}] inlc=[{inlc}] blocks=[{blocks}]"
+  let ring := ",".intercalate ((ringDump st).map fun p => s!"{p.1}:{p.2}")
+  s!"res={o.str} tip={tip} lc=[{lc}] utxo=[{showList (sortNat st.utxo)}] inlc=[{inlc}] blocks=[{blocks}] ring=[{ring}]"
 
 def step (d : DS) (line : String) : DS × String :=
   match line.trimAscii.toString.splitOn " " with
